@@ -36,7 +36,20 @@ func opMurmur(_ *HState, a Event) Event {
 	return panicField(with(a, "ret", w32(r)), p, msg)
 }
 
+// item: callers insert and query from re-used buffers (one scratch buffer / one hash variable per filter object, as a
+// message loop does): the filter takes what it needs from the item during the call and keeps no reference to it
+func (o *bloomObj) item(b []byte) []byte {
+	if cap(o.scratch) < len(b) {
+		o.scratch = make([]byte, 0, 2*len(b)+64)
+	}
+	buf := o.scratch[:len(b)]
+	copy(buf, b)
+	return buf
+}
+
 type bloomObj struct {
+	scratch []byte
+	hashVar chainhash.Hash
 	dead bool // an earlier op panicked or hung (possibly while holding the filter mutex)
 	f    *bloom.Filter
 	prev []byte // snapshot of the filter bytes after the previous event
@@ -120,7 +133,12 @@ func mkMsg(a Event) *wire.MsgFilterLoad {
 		return nil
 	}
 	n := gInt(a, "nbytes")
-	b := make([]byte, n)
+	// the bit array of a message is often a window of a larger receive buffer: spare capacity behind it (patterned)
+	spare := []int{0, 5, 64}[(n+gInt(a, "nhash"))%3]
+	b := make([]byte, n, n+spare)
+	for i := range b[n : n+spare] {
+		b[n : n+spare][i] = 0xA5
+	}
 	for _, x := range gList(a, "setbits") {
 		bit := int(x.(float64))
 		b[bit/8] |= 1 << uint(bit%8)
@@ -166,17 +184,17 @@ func opBloom(h *HState, a Event) Event {
 		case "IsLoaded":
 			e["ret"] = o.f.IsLoaded()
 		case "Add":
-			o.f.Add(gBytes(a, "item"))
+			o.f.Add(o.item(gBytes(a, "item")))
 		case "AddHash":
-			var hsh chainhash.Hash
-			copy(hsh[:], gBytes(a, "item"))
-			o.f.AddHash(&hsh)
+			o.hashVar = chainhash.Hash{}
+			copy(o.hashVar[:], gBytes(a, "item"))
+			o.f.AddHash(&o.hashVar)
 		case "AddOutPoint":
 			var hsh chainhash.Hash
 			copy(hsh[:], gBytes(a, "txid"))
 			o.f.AddOutPoint(wire.NewOutPoint(&hsh, gW32(a, "idx")))
 		case "Matches":
-			e["ret"] = o.f.Matches(gBytes(a, "item"))
+			e["ret"] = o.f.Matches(o.item(gBytes(a, "item")))
 		case "MatchesOutPoint":
 			var hsh chainhash.Hash
 			copy(hsh[:], gBytes(a, "txid"))
